@@ -155,6 +155,7 @@ Variable basename_of : name -> name.
 Variable re_match : name -> name -> bool.
 Variable regex_name : name -> name -> name.
 Variable is_regex_name : name -> bool.
+Variable is_opt : name -> bool.
 
 Notation get_wild := (get_wild matches).
 Notation expand_wild := (expand_wild matches).
@@ -165,10 +166,12 @@ Notation delayed_matched := (delayed_matched re_match is_regex_name).
 Notation add_regex_task := (add_regex_task regex_name).
 Notation filter_one := (filter_one basename_of re_match regex_name is_regex_name).
 Notation filter_list := (filter_list basename_of re_match regex_name is_regex_name).
-Notation filter_tasks := (filter_tasks has_star matches basename_of re_match regex_name is_regex_name).
-Notation process := (process has_star matches basename_of re_match regex_name is_regex_name).
-Notation select_core := (select_core has_star matches basename_of re_match regex_name is_regex_name).
-Notation cmd_run_select := (cmd_run_select has_star matches basename_of re_match regex_name is_regex_name).
+Notation name_action := (name_action has_star matches).
+Notation process_filter := (process_filter has_star matches is_opt).
+Notation filter_tasks := (filter_tasks has_star matches basename_of re_match regex_name is_regex_name is_opt).
+Notation process := (process has_star matches basename_of re_match regex_name is_regex_name is_opt).
+Notation select_core := (select_core has_star matches basename_of re_match regex_name is_regex_name is_opt).
+Notation cmd_run_select := (cmd_run_select has_star matches basename_of re_match regex_name is_regex_name is_opt).
 
 (* one element of the filter list, declaratively: the four ways a name is accepted *)
 Inductive resolves (auto : bool) (tg : tmap) (tb : table) (f : name) : table -> list name -> Prop :=
@@ -538,9 +541,76 @@ Proof.
   inversion Hin; subst. simpl. apply lookup_In in E. eauto.
 Qed.
 
+(* ---------- _process_filter with task arguments ---------- *)
+(* a command line on which nothing is an argument of a task: no token looks like an option, and no task
+   that declares pos_arg is named explicitly (patterns may match such tasks) *)
+Definition plain_sel (tb : table) (sel : list name) : Prop :=
+  Forall (fun f => is_opt f = false /\
+                   (has_star f = false -> forall t, lookup tb f = Some t -> s_pos_arg t = false)) sel.
+
+Lemma pf_cons_name order tb m st x r :
+  is_opt x = false -> (m = MName \/ exists o, m = MOpts o false) ->
+  process_filter order tb m st (x :: r) =
+  match name_action order tb st x with
+  | (emit, None, st') => Some (emit, st')
+  | (emit, Some m', st') =>
+    match process_filter order tb m' st' r with
+    | None => None
+    | Some (fl, st'') => Some (emit ++ fl, st'')
+    end
+  end.
+Proof.
+  intros Ho [->|(o & ->)]; cbn [Select.process_filter]; [reflexivity|]. rewrite Ho. reflexivity.
+Qed.
+
+Theorem process_filter_plain order tb sel : forall m st,
+  plain_sel tb sel -> (m = MName \/ exists o, m = MOpts o false) ->
+  exists st', process_filter order tb m st sel = Some (expand_sel order sel, st').
+Proof.
+  induction sel as [|x r IH]; intros m st Hp Hm.
+  - exists st. destruct Hm as [->|(o & ->)]; reflexivity.
+  - inversion Hp as [|? ? [Ho Hpos] Hr]; subst. rewrite pf_cons_name; auto.
+    unfold Select.name_action, Select.expand_sel. cbn [flat_map]. fold (expand_sel order r).
+    destruct (has_star x) eqn:Es.
+    + destruct (IH MName (mark_glob tb st (Select.get_wild matches order x)) Hr (or_introl eq_refl)) as (st' & E).
+      rewrite E. eauto.
+    + destruct (lookup tb x) as [t|] eqn:El.
+      * rewrite (Hpos eq_refl t eq_refl). cbn [andb].
+        destruct (mem x (p_inited st)).
+        -- destruct (IH MName {| p_inited := addset x (p_inited st); p_posset := p_posset st |} Hr (or_introl eq_refl)) as (st' & E).
+           rewrite E. eauto.
+        -- destruct (IH (MOpts (s_opts t) false) {| p_inited := addset x (p_inited st); p_posset := p_posset st |} Hr
+                        (or_intror (ex_intro _ _ eq_refl))) as (st' & E).
+           rewrite E. eauto.
+      * destruct (IH MName st Hr (or_introl eq_refl)) as (st' & E). rewrite E. eauto.
+Qed.
+
+(* what follows a pattern is always read as further selection elements, whatever the pattern matched *)
+Theorem process_filter_after_glob order tb st g r :
+  has_star g = true ->
+  process_filter order tb MName st (g :: r) =
+  match process_filter order tb MName (mark_glob tb st (get_wild order g)) r with
+  | None => None
+  | Some (fl, st') => Some (get_wild order g ++ fl, st')
+  end.
+Proof. intros H. cbn [Select.process_filter]. unfold Select.name_action. rewrite H. reflexivity. Qed.
+
+(* what follows a task declaring pos_arg, named explicitly for the first time, are its values *)
+Theorem process_filter_pos_arg order tb st p t r :
+  has_star p = false -> lookup tb p = Some t -> s_pos_arg t = true -> ~ In p (p_posset st) ->
+  Forall (fun x => is_opt x = false) r ->
+  exists st', process_filter order tb MName st (p :: r) = Some ([p], st').
+Proof.
+  intros Hs Hl Hp Hn Hr. cbn [Select.process_filter]. unfold Select.name_action. rewrite Hs, Hl, Hp.
+  apply mem_false_In in Hn. rewrite Hn. cbn [andb negb].
+  destruct (mem p (p_inited st)); [eauto|].
+  destruct r as [|y r']; cbn [Select.process_filter]; [eauto|].
+  inversion Hr; subst. rewrite H1. eauto.
+Qed.
+
 (* no --single: exactly the tasks the names stand for, in the order given; or the first unknown name *)
 Theorem select_exact auto tb c sel :
-  init tb = inr c -> no_loader tb ->
+  init tb = inr c -> no_loader tb -> plain_sel (c_tasks c) sel ->
   (forall selected tb' tg',
      select_core auto false (Some sel) tb = ROk tb' tg' selected <->
      tb' = c_tasks c /\ tg' = c_targets c /\
@@ -550,8 +620,9 @@ Theorem select_exact auto tb c sel :
      exists pre post, expand_sel (c_order c) sel = pre ++ f :: post /\
                       Forall (known (c_targets c) (c_tasks c)) pre /\ ~ known (c_targets c) (c_tasks c) f).
 Proof.
-  intros Hi Hnl. pose proof (init_ok _ _ Hi) as Hs. pose proof (init_no_loader _ _ Hi Hnl) as Hnl'.
-  unfold Select.select_core. rewrite Hi. cbn [Select.process]. unfold Select.filter_tasks.
+  intros Hi Hnl Hpl. pose proof (init_ok _ _ Hi) as Hs. pose proof (init_no_loader _ _ Hi Hnl) as Hnl'.
+  destruct (process_filter_plain (c_order c) (c_tasks c) sel MName pstate0 Hpl (or_introl eq_refl)) as (st' & Hpf).
+  unfold Select.select_core. rewrite Hi. cbn [Select.process]. unfold Select.filter_tasks. rewrite Hpf.
   split.
   - intros selected tb' tg'.
     destruct (filter_list auto (c_targets c) (c_tasks c) (expand_sel (c_order c) sel)) as [e|[tb1 s]] eqn:E.
@@ -571,18 +642,30 @@ Proof.
     + split; [discriminate|]. intros H. apply (filter_list_static_err auto) in H; auto. congruence.
 Qed.
 
-(* whatever the table: a failed selection names its first unresolvable element, and selects nothing *)
-Theorem select_not_found auto single tb c sel f :
+(* whatever the table and the command line: how a selection fails, and that it then selects nothing *)
+Theorem select_failures auto single tb c sel :
   init tb = inr c ->
-  (select_core auto single (Some sel) tb = RNotFound f <->
-   exists pre post tb1 s1, expand_sel (c_order c) sel = pre ++ f :: post /\
+  (select_core auto single (Some sel) tb = RParseErr <->
+   process_filter (c_order c) (c_tasks c) MName pstate0 sel = None) /\
+  (forall f, select_core auto single (Some sel) tb = RNotFound f <->
+   exists fl st pre post tb1 s1,
+     process_filter (c_order c) (c_tasks c) MName pstate0 sel = Some (fl, st) /\ fl = pre ++ f :: post /\
      resolves_all auto (c_targets c) (c_tasks c) pre tb1 s1 /\ unresolvable auto (c_targets c) tb1 f).
 Proof.
   intros Hi. unfold Select.select_core. rewrite Hi. cbn [Select.process]. unfold Select.filter_tasks.
-  rewrite <- filter_list_err.
-  destruct (filter_list auto (c_targets c) (c_tasks c) (expand_sel (c_order c) sel)) as [e|[tb1 s]].
-  - split; intros H; inversion H; subst; auto.
-  - split; discriminate.
+  destruct (process_filter (c_order c) (c_tasks c) MName pstate0 sel) as [[fl st]|] eqn:Epf.
+  - split.
+    + destruct (filter_list auto (c_targets c) (c_tasks c) fl) as [e|[tb1 s]]; split; discriminate.
+    + intros f. split.
+      * destruct (filter_list auto (c_targets c) (c_tasks c) fl) as [e|[tb1 s]] eqn:E; [|discriminate].
+        intros H; inversion H; subst. apply filter_list_err in E.
+        destruct E as (pre & post & tb1 & s1 & E1 & E2 & E3). exists fl, st, pre, post, tb1, s1. auto.
+      * intros (fl' & st' & pre & post & tb1 & s1 & E0 & E1 & E2 & E3). inversion E0; subst.
+        assert (E : filter_list auto (c_targets c) (c_tasks c) (pre ++ f :: post) = inl f).
+        { apply filter_list_err. exists pre, post, tb1, s1. auto. }
+        rewrite E. reflexivity.
+  - split; [split; reflexivity|]. intros f. split; [discriminate|].
+    intros (fl' & st' & pre & post & tb1 & s1 & E0 & _). discriminate.
 Qed.
 
 (* ---------- default_tasks ---------- *)
